@@ -57,6 +57,7 @@ type Opts struct {
 	ChainCycle       bool          `json:"chain_cycle"`  // the last chain realm refers back to R1 instead of holding the service
 	LenientCRealm    bool          `json:"lenient_authenticator_crealm"`
 	FreshRenewKey    bool          `json:"kdc_issues_new_key_on_renewal"`
+	StrictRenewal    bool          `json:"kdc_refuses_to_renew_ended_tickets,omitempty"`
 	PasswordOverride string        `json:"-"` // C20: a marker password instead of the default one
 	// UserInstance, when set, makes the client principal testuser1/<instance>; with keytab credentials the keytab
 	// then also holds a newer entry for sibling/<instance> with another key (the usual host keytab layout)
@@ -231,6 +232,7 @@ func New(o Opts) *World {
 	for _, k := range w.AllKDCs() {
 		k.LenientAuthCRealm = o.LenientCRealm
 		k.FreshKeyOnRenew = o.FreshRenewKey
+		k.StrictRenewal = o.StrictRenewal
 	}
 	reg := func(addr string, k *simkdc.KDC) {
 		for _, n := range []string{"udp", "tcp"} {
